@@ -198,8 +198,20 @@ def trace_direction(ctx):
             if e2["ev"] == "end" and e2["outcome"] == "reject":
                 e2["outcome"] = "accept"
             flipped.append(e2)
-    bad, res = trace.validate("ValidatorTrace", records + flipped, timeout=3000)
-    ctx.add_tlc(res, "trace validation (ValidatorTrace)")
+    # one TLC invocation per batch of <= 3000 runs (the verdict sequence `bad` grows with the trace; a single
+    # invocation over several 10^5 lines made TLC's JSON printing of it fail in the thorough tier)
+    bad = []
+    batch = 3000
+    allrec = records + flipped
+    by_tid = {}
+    for e in allrec:
+        by_tid.setdefault(e["tid"], []).append(e)
+    tids = sorted(by_tid)
+    for i in range(0, len(tids), batch):
+        part = [e for t in tids[i : i + batch] for e in by_tid[t]]
+        b, res = trace.validate("ValidatorTrace", part, timeout=3000)
+        ctx.add_tlc(res, "trace validation (ValidatorTrace), runs %d..%d" % (i, min(len(tids), i + batch) - 1))
+        bad += b
     self_hits = sum(1 for b in bad if b["alarm"] and b["tid"] >= len(outs))
     if self_hits == 0:
         raise RuntimeError("trace binding self-test failed: rejected runs relabelled as accepted were all accepted by ValidatorTrace")
